@@ -401,6 +401,15 @@ impl ExactSizeIterator for LocalOpaquePoolIterator<'_> {
 
 impl FusedIterator for LocalOpaquePoolIterator<'_> {}
 
+#[cfg(folo_verif)]
+impl LocalOpaquePool {
+    /// Verification hook: read-only internal consistency probe.
+    #[doc(hidden)]
+    pub fn __verif_check(&self) -> Result<(), String> {
+        self.inner.borrow().__verif_check()
+    }
+}
+
 #[cfg(test)]
 #[cfg_attr(coverage_nightly, coverage(off))]
 mod tests {
